@@ -32,7 +32,8 @@ def hexOfNat (n : Nat) (width : Nat) : String :=
   let digs := (Nat.toDigits 16 n)
   String.ofList (List.replicate (width - digs.length) '0' ++ digs)
 
-def showF (x : Float) : String := hexOfNat x.toBits.toNat 16
+def showF (x : Float) : String :=
+  if x.isNaN then "7ff8000000000000" else hexOfNat x.toBits.toNat 16
 
 def parseV (s : String) : Option (Vec Float) :=
   if s == "-" then some [] else
@@ -171,11 +172,11 @@ def handle (c : Ctx) (line : String) : Ctx × Option String :=
       ({ c with tabs := { c.tabs with FD := c.tabs.FD.insert (keyV x) (f0, pts, g) } }, none)
     | _, _, _, _ => (c, some "bad-op")
   | ["reset"] => ({}, none)
-  | ["sf.new", mode, x0] =>
-    match parseV x0, mode with
-    | some x0, "callable" => ({ c with sf := SF.new .callable x0 }, some "ok")
-    | some x0, "fd" => ({ c with sf := SF.new .fd x0 }, some "ok")
-    | _, _ => (c, some "bad-op")
+  | ["sf.new", mode, x0, lb, ub] =>
+    match parseV x0, parseV lb, parseV ub, mode with
+    | some x0, some lb, some ub, "callable" => ({ c with sf := SF.new .callable x0 lb ub }, some "ok")
+    | some x0, some lb, some ub, "fd" => ({ c with sf := SF.new .fd x0 lb ub }, some "ok")
+    | _, _, _, _ => (c, some "bad-op")
   | ["sf.fun", x] => match parseV x with
     | some x => let (c, o) := sfOp c (.funv x); (c, some o)
     | none => (c, some "bad-op")
